@@ -111,8 +111,11 @@ class Prop(core.Prop):
         else:
             for nsfc in (1, 2):
                 for nup in (1, 2):
-                    for pat in ('ramp', 'wave', 'steps'):
+                    for pat in ('ramp', 'wave', 'steps', 'fine'):
                         yield dict(group, nsfc=nsfc, nup=nup, pattern=pat)
+            if group['nlev'] == 2:
+                # the second upper level carries a variable the first one lacks
+                yield dict(group, nsfc=1, nup=2, pattern='ramp', levvars=True)
 
     def run_one(self, case):
         if case['part'] == 'file':
@@ -198,6 +201,9 @@ class Prop(core.Prop):
                 return (seed + 0.5 * i + 2. * j).astype('f')
             if pat == 'wave':
                 return (280. + seed + 10. * np.sin(i / 3.) * np.cos(j / 2.)).astype('f')
+            if pat == 'fine':
+                # eight significant digits in the first value, neighbour differences of a few millimetres
+                return (1456.78955 + 0.001 * (seed % 7) + 0.003 * ((i + 2 * j) % 5)).astype('f')
             return (seed + (i // 5) * 32768. - (j // 4) * 1000.).astype('f')
         times = [(95, 12, 31, 12), (96, 1, 1, 0), (96, 1, 2, 12)][:nt]
         sfcn = ['PRSS', 'T02M'][:nsfc]
@@ -207,6 +213,8 @@ class Prop(core.Prop):
                    sfc={n: [field(1000. * (k + 1) + ti) for ti in range(nt)] for k, n in enumerate(sfcn)},
                    upper={n: [[field(100. * (k + 1) + 10 * li + ti) for li in range(nlev)] for ti in range(nt)]
                           for k, n in enumerate(upn)})
+        if case.get('levvars'):
+            rec['level_names'] = [[upn[0]], list(upn)]
         raw = rarl.encode_file(rec)
         path = os.path.join(self.tmp, 'arl_%d.bin' % os.getpid())
         with open(path, 'wb') as fh:
@@ -240,6 +248,8 @@ class Prop(core.Prop):
                 got = np.asarray(f.variables[n][...], 'd')
                 for ti in range(nt):
                     for li in range(nlev):
+                        if case.get('levvars') and n not in rec['level_names'][li]:
+                            continue      # the file holds no such record: nothing is demanded of that slab
                         self.cmp_field(vs, sig, scope, n, got[ti, li], rec['upper'][n][ti][li])
             # writer direction: library writer output decoded by the independent reader
             from PseudoNetCDF.noaafiles._arl import writearlpackedbit
@@ -247,6 +257,10 @@ class Prop(core.Prop):
             if os.path.exists(outp):
                 os.unlink(outp)
             try:
+                if case.get('levvars'):
+                    # the writer gives every upper variable to every level (the statement is about reading
+                    # files laid out as the format prescribes): not judged for per-level variable lists
+                    raise StopIteration
                 writearlpackedbit(f, outp)
                 wraw = open(outp, 'rb').read()
                 d = rarl.decode_file(wraw)
@@ -267,6 +281,8 @@ class Prop(core.Prop):
                                            '%s time %d level %d differs from the values written by more than a step'
                                            % (nm, ti, li), **scope))
                             break
+            except StopIteration:
+                pass
             except Exception as e:
                 vs.append(viol('writer-raises', ('writearlpackedbit',), '%s: %r' % (type(e).__name__, e),
                                exc=type(e).__name__, **scope))
